@@ -74,7 +74,14 @@ def child_selftest(prop: str, tier: str, seed: int, spec_path: str) -> int:
 
 def run_single(prop: str, doc_path: str) -> int:
     """Executed in a fresh interpreter: execute one scenario document."""
+    import faulthandler
     engine = load_engine(prop)
+    dump = os.environ.get("VERIF_HANG_DUMP")
+    if dump:
+        # where is the interpreter when the scenario is about to be killed?
+        fh = open(dump, "w", encoding="utf-8")  # noqa: SIM115
+        faulthandler.dump_traceback_later(
+            float(os.environ.get("VERIF_HANG_AFTER", "60")), file=fh)
     with open(doc_path, encoding="utf-8") as f:
         doc = json.load(f)
     res = core.safe_execute(engine, doc)
@@ -94,13 +101,27 @@ def _rerun_alone(prop: str, engine, root: bytes, item, cap: float,
     path = os.path.join(workdir, f"single-{os.getpid()}-{abs(hash(key))}.json")
     with open(path, "w", encoding="utf-8") as f:
         json.dump(_jsonable(doc), f)
+    dump = path + ".hang"
+    env = dict(os.environ, VERIF_HANG_DUMP=dump,
+               VERIF_HANG_AFTER=str(max(5.0, cap * 0.85)))
+    where = ""
     try:
         p = subprocess.run([core.PYTHON, core.MAIN, "single", prop, path],
-                           capture_output=True, text=True, timeout=cap)
+                           capture_output=True, text=True, timeout=cap,
+                           env=env)
         rc = p.returncode
         err = (p.stdout + p.stderr)[-1500:]
     except subprocess.TimeoutExpired:
         rc, err = 124, "timeout"
+        if os.path.exists(dump):
+            with open(dump, encoding="utf-8") as f:
+                frames = [ln.strip() for ln in f if ln.strip().startswith(
+                    "File ")]
+            if frames:
+                where = frames[0]
+                err = "timeout; innermost frames: " + " <- ".join(frames[:4])
+    if os.path.exists(dump):
+        os.remove(dump)
     res = None
     if rc == 0 and os.path.exists(path + ".out"):
         with open(path + ".out", encoding="utf-8") as f:
@@ -108,7 +129,12 @@ def _rerun_alone(prop: str, engine, root: bytes, item, cap: float,
     for q in (path, path + ".out"):
         if os.path.exists(q):
             os.remove(q)
-    return {"rc": rc, "err": err, "res": res, "doc": doc}
+    # a hang whose innermost Python frame is simulator code is a harness
+    # problem, not a property violation
+    harness_hang = rc == 124 and '"/verif/' in where.replace(
+        core.VERIF, "/verif") and "/site-packages/" not in where
+    return {"rc": rc, "err": err, "res": res, "doc": doc,
+            "harness_hang": harness_hang}
 
 
 def run_check(prop: str, tier: str) -> int:
@@ -203,7 +229,8 @@ def run_check(prop: str, tier: str) -> int:
                                       r["item"][2]), r["item"][1])
                 alone = {"rc": ref["rc"], "res": None,
                          "err": "not re-run alone (others confirmed)",
-                         "doc": doc0}
+                         "doc": doc0,
+                         "harness_hang": ref.get("harness_hang", False)}
         if alone["res"] is not None:
             lost_recovered += 1
             rr = alone["res"]
@@ -216,6 +243,15 @@ def run_check(prop: str, tier: str) -> int:
                             "doc_digest": core.digest(alone["doc"]),
                             "doc": alone["doc"], "events": rr["events"],
                             "recovered_from": r["lost"]}
+        elif alone.get("harness_hang"):
+            results[key] = {"key": key, "digest": "", "violation": None,
+                            "harness_error": "scenario hangs inside "
+                            "simulator code: " + alone["err"][-600:],
+                            "faults": {}, "probes": {}, "states": [],
+                            "nontrivial": False, "sim_time": 0.0, "ops": 0,
+                            "n_events": 0,
+                            "doc_digest": core.digest(alone["doc"]),
+                            "doc": alone["doc"], "events": []}
         else:
             clause = "no-termination" if alone["rc"] == 124 \
                 else "interpreter-crash"
